@@ -27,6 +27,9 @@ structure Cfg where
   /-- F1 repair present: the unwind guard of `rehash_in_place` resets pending buckets also for
       element types without drop glue. -/
   guardAlways : Bool := true
+  /-- F2 repair present: `get_many_mut` detects duplicates by bucket identity also for zero-sized
+      element types (0.15.2 compared element addresses, which coincide for all zero-sized elements). -/
+  zstDupFixed : Bool := true
 
 def Cfg.W (c : Cfg) : Nat := c.ops.W
 
